@@ -1,11 +1,13 @@
 """C01 - step file writes round-trip: histories of robsd-step -W / -R against the model and the abstract dictionary."""
-import hashlib, json, glob, os, subprocess
+import hashlib, json, glob, os, signal, subprocess, time
 from concurrent.futures import ThreadPoolExecutor
 import common
 from common import hexs
 
 TRANSLATORS = ['t_step', 't_interp', 't_lock']
-TRUSTED = ['translator t_step.py (regexes on step.c / robsd-step.c: field table, strtonum bounds, write-time value check, the fwrite and fclose result checks)',
+TRUSTED = ['translator t_step.py (step.c / robsd-step.c: field table, strtonum bounds; the write-time value check, the fclose result check and the id test of action_write '
+           'are matched as whole guarded statements - `if (...) { warnx; return 1; }`, `if (... fclose(fh) == EOF && !error) { warn; error = 1; }` - and anything else raises; '
+           'the fwrite call by its argument positions and the guarded `error = 1`)',
            'modelled, not verified: strtoll (decimal syntax re-written in Gallina), fopen("w") truncation, the file system; ASSUMED about libc: a 4096-byte stdio block, '
            'fwrite writes whole blocks itself and leaves the tail to fclose (compared with the implementation at byte granularity around the block boundaries); '
            'a refusing file system is RLIMIT_FSIZE = k bytes with SIGXFSZ ignored (tools/c01_fsize.c)',
@@ -67,9 +69,9 @@ def gen_write(rng, known_ids):
     elif e < 0.22 and canon.lstrip(b'-').isdigit():
         kvs.append(b'step=' + canon)   # the same id: allowed
     elif e < 0.245:
-        kvs.insert(rng.randint(0, len(kvs)), b'step=' + rng.choice(IDS + [b'0', b'x', b'']))   # another id: renumbers the row
-    elif e < 0.23:
-        kvs = []
+        kvs.insert(rng.randint(0, len(kvs)), b'step=' + rng.choice(IDS + [b'0', b'x', b'']))   # another id: must be refused (17c91c8)
+    elif e < 0.26:
+        kvs = []                                                                                  # no key=value at all: usage
     return idarg, kvs
 
 
@@ -138,6 +140,31 @@ def resolve_k(impl, work, idx, before, idarg, kvs, spec):
     return max(0, len(new) - spec['short'])
 
 
+def dry_run(impl, work, idx, before, idarg, kvs):
+    """what THIS command leaves in the file when the file system refuses nothing (None when it rejects its arguments)"""
+    tmp = os.path.join(work, 'new%d.csv' % idx)
+    open(tmp, 'wb').write(before)
+    rc, _ = sh_write(impl, tmp, idarg, kvs)
+    new = open(tmp, 'rb').read()
+    os.unlink(tmp)
+    return new if rc == 0 else None
+
+
+def refusal_class(st):
+    """The input class of the known finding refused-write-damages-file, as a predicate on the case and the observation:
+    a fault plan was injected into THIS write, its refusal point k lies before the end of what the command writes,
+    the command exited 1, and the file holds exactly the first k bytes of the new content.  Returns the sub-class
+    named in the finding (k=0 / cut on a row boundary / cut inside a row) or None: any other damage is not the finding."""
+    new = st.get('new')
+    if not st['fault'] or new is None or st['k'] is None or not (st['k'] < len(new)) or st['rc'] != 1 or st['after'] != new[:st['k']]:
+        return None
+    if st['k'] == 0:
+        return 'k=0 (empty file)'
+    if st['after'].endswith(b'\n') and st['k'] >= len(new.split(b'\n')[0]) + 1:
+        return 'cut on a row boundary'
+    return 'cut inside a row or the header'
+
+
 def sh_read(impl, path, how, arg, tmpl):
     r = subprocess.run([os.path.join(impl, 'robsd-step'), '-R', '-f', path, how, arg], input=tmpl,
                        stdout=subprocess.PIPE, stderr=subprocess.PIPE, timeout=20)
@@ -191,11 +218,13 @@ def run_history(impl, tool, work, idx, h):
         fault = (i == h['fault_at'])
         idarg, kvs = bytes.fromhex(idh), [bytes.fromhex(k) for k in kvh]
         k = None
+        new = None
         if fault:
             k = resolve_k(impl, work, idx, before, idarg, kvs, h.get('fault_k', 1024 * h.get('fault_blocks', 0)))
+            new = dry_run(impl, work, idx, before, idarg, kvs)
         rc, err = sh_write(impl, path, idarg, kvs, k, tool)
         after = open(path, 'rb').read()
-        steps.append({'before': before, 'rc': rc, 'after': after, 'fault': fault, 'k': k, 'stderr': err[-200:]})
+        steps.append({'before': before, 'rc': rc, 'after': after, 'fault': fault, 'k': k, 'new': new, 'stderr': err[-200:]})
     final = open(path, 'rb').read()
     reads = []
     for pos in (1, 2, 3, -1, -2, 5, -5):
@@ -261,12 +290,24 @@ def evaluate(ctx, hs, res):
                 index.append(('ib', hi, i))
                 qs.append('ids ' + hexs(st['after']))
                 index.append(('ia', hi, i))
+                qs.append('canon ' + hexs(st['before']))
+                index.append(('cb', hi, i))
+                qs.append('canon ' + hexs(st['after']))
+                index.append(('ca', hi, i))
         for (pos, f, rc, out) in reads:
             qs.append(' '.join(['read', hexs(final), 'i', str(pos).encode().hex(), ('${%s}\n' % f).encode().hex()]))
             index.append(('r', hi, (pos, f, rc, out)))
         for (nm, rc, out, rc1, out1) in byname:
             qs.append(' '.join(['read', hexs(final), 'n', nm.hex(), b'${step}:${name}:${exit}\n'.hex()]))
             index.append(('n', hi, (nm, rc, out)))
+        # a history with a refused write: the two-sided agreement on the writes BEFORE the refusal is still judged
+        if h['start'] == '' and any(s_['fault'] for s_ in steps) and h['fault_at'] > 0:
+            toks = ['hist', str(h['fault_at'])]
+            for (idh, kvh), st in list(zip(h['writes'], steps))[:h['fault_at']]:
+                toks += [idh or '-', '1' if st['rc'] == 0 else '0', str(len(kvh))] + [k or '-' for k in kvh]
+            toks.append('0')
+            qs.append(' '.join(toks))
+            index.append(('hp', hi, None))
         # oracle on the whole observed history, only when it started from the empty file
         if h['start'] == '':
             toks = ['hist', str(len(steps))]
@@ -287,6 +328,7 @@ def evaluate(ctx, hs, res):
             qs.append(' '.join(toks))
             index.append(('hn', hi, None))
     ans = common.run_driver(drv, qs)
+    check_expectations(hs, obs, res)
     ids_before = {}
     for (kind, hi, info), a in zip(index, ans):
         h = hs[hi]
@@ -322,21 +364,40 @@ def evaluate(ctx, hs, res):
         elif kind == 'ib':
             ids_before[(hi, info)] = a
         elif kind == 'ia':
+            ids_before[(hi, info, 'after')] = a
+        elif kind == 'cb':
+            ids_before[(hi, info, 'cb')] = a
+        elif kind == 'ca':
+            # ORACLE (clause 1 of the property under fault_sequences): after a write that did NOT exit 0 the step file must still
+            # be readable and hold the rows it held (the most recently written values): the parsed rows, re-serialised in id
+            # order, are compared - not the bytes, a refused write need not leave the bytes alone, only what reads return.
             st = steps[info]
-            b = ids_before.get((hi, info), 'error')
-            if st['rc'] != 0 and st['after'] != st['before'] and b.startswith('ok'):
-                had = set(x for x in b[3:].split(',') if x)
-                if a.startswith('ok'):
-                    left = set(x for x in a[3:].split(',') if x)
-                    if had - left:
-                        res.count('refused write left a readable file without %d of %d rows' % (len(had - left), len(had)))
-                        res.oracle_failures.append({'case': {'history': h, 'step': info}, 'signature': 'refused-write-damages-file',
-                                               'what': 'a write refused by the file system (first %d bytes accepted) exited %d and left a step file that still parses but '
-                                                       'lacks rows %s written earlier' % (st['k'], st['rc'], sorted(had - left))})
-                elif had:
-                    res.count('refused write left an unreadable file')
+            cb = ids_before.get((hi, info, 'cb'), 'error')
+            b, aa = ids_before.get((hi, info), 'error'), ids_before.get((hi, info, 'after'), 'error')
+            if st['rc'] != 0 and cb.startswith('ok') and a != cb:
+                had = set(x for x in b[3:].split(',') if x) if b.startswith('ok') else set()
+                left = set(x for x in aa[3:].split(',') if x) if aa.startswith('ok') else None
+                if left is None:
+                    how = 'left a step file that no command can read'
+                elif had - left:
+                    how = 'left a step file that still parses but lacks rows %s written earlier' % sorted(had - left)
+                else:
+                    how = 'left a step file whose rows differ from those written earlier'
+                cls = refusal_class(st)
+                if cls is not None:
+                    # the known finding, recognised by the case: a fault plan with k < length was injected into THIS very
+                    # write, it exited 1, and the file is exactly the first k bytes of the new content
+                    res.count('refused write (%s) %s' % (cls, 'left an unreadable file' if left is None else 'left a readable file without rows' if had - left else 'changed rows'))
                     res.oracle_failures.append({'case': {'history': h, 'step': info}, 'signature': 'refused-write-damages-file',
-                                           'what': 'a write refused by the file system (first %d bytes accepted) exited %d and left a step file that no command can read' % (st['k'], st['rc'])})
+                                                'what': 'a write refused by the file system (first %d of %d bytes accepted: %s) exited 1 and %s'
+                                                        % (st['k'], len(st['new']), cls, how)})
+                else:
+                    # any other damage by a failing write is NOT the known finding (e.g. bytes other than a prefix of the new
+                    # content, an exit status other than 1, damage although everything was accepted, no new content at all)
+                    res.oracle_failures.append({'case': {'history': h, 'step': info}, 'signature': 'failed-write-damaged-file',
+                                                'what': 'a write under a refusing file system (first %s bytes accepted, new content %s bytes) exited %d and %s; the file is not '
+                                                        'the first k bytes of the new content with k below its length, so this is not the known refusal damage'
+                                                        % (st['k'], len(st['new']) if st['new'] is not None else 'none:', st['rc'], how)})
         elif kind == 'r':
             pos, f, rc, out = info
             res.evaluations += 1
@@ -348,13 +409,23 @@ def evaluate(ctx, hs, res):
             res.count('read by name rc=%d' % rc)
             if a != '%d %s' % (rc, hexs(out)):
                 res.disagreements.append({'case': {'history': h, 'read': 'name ' + nm.hex()}, 'model': a, 'impl': '%d %s' % (rc, hexs(out))})
+        elif kind == 'hp':
+            ok, nrows, mism = (a.split(' ') + ['-'])[:3]
+            res.count('history with a refused write: writes before it judged by the two-sided oracle')
+            if ok != '1' and not renumbering(h, steps[:h['fault_at']]):
+                res.oracle_failures.append({'case': {'history': h}, 'signature': 'acceptable-write-refused' if mism.endswith(':S') else 'readback-differs-from-written',
+                                            'what': 'before the refused write of the history, write %s: %s' % (mism[:-2], 'the dictionary specification accepts it, '
+                                                    'robsd-step -W refused' if mism.endswith(':S') else 'robsd-step -W accepted what the specification rejects')})
         elif kind == 'hn':
-            if a != '1' and not any(s['fault'] for s in steps) and not renumbering(h, steps):
+            okn, mism = (a.split(' ') + ['-'])[:2]
+            # a refused acceptable write / an accepted unacceptable one is reported once, by the 'h' answer below
+            if okn != '1' and mism == '-' and not any(s['fault'] for s in steps) and not renumbering(h, steps):
                 res.oracle_failures.append({'case': {'history': h}, 'signature': 'read-by-name-wrong-row',
                                             'what': 'after the history, reading by name does not select the first row in ascending id order '
                                                     'that carries the name (or fails although such a row exists)'})
         else:
-            ok, nrows = a.split(' ')
+            ok, nrows, mism = (a.split(' ') + ['-'])[:3]
+            res.count('history judged by the two-sided oracle' if not any(s['fault'] for s in steps) else 'history with a refused write (history oracle not applied)')
             accepted = sum(1 for s in steps if s['rc'] == 0)
             if accepted >= 2:
                 res.nontrivial.add(hashlib.sha1(json.dumps(h, sort_keys=True).encode()).hexdigest())
@@ -364,9 +435,17 @@ def evaluate(ctx, hs, res):
                 res.oracle_failures.append({'case': {'history': h}, 'signature': 'step-key-renumbers-row',
                                             'what': 'robsd-step -W -i I -- step=J (J different from I) exited 0: the row of id I now carries id J'})
             if ok != '1' and not any(s['fault'] for s in steps) and not renum:
-                res.oracle_failures.append({'case': {'history': h}, 'signature': 'readback-differs-from-written',
-                                            'what': 'after the history, reading does not return the most recently written values '
-                                                    '(or a write was accepted that cannot be read back)'})
+                if mism.endswith(':S'):
+                    # the side the oracle lacked (gap report 2): the dictionary specification accepts the write, the command refused it
+                    wi = int(mism[:-2])
+                    res.oracle_failures.append({'case': {'history': h, 'step': wi}, 'signature': 'acceptable-write-refused',
+                                                'what': 'write %d of the history is accepted by the dictionary specification but robsd-step -W exited %d'
+                                                        % (wi, steps[wi]['rc'])})
+                else:
+                    res.oracle_failures.append({'case': {'history': h}, 'signature': 'readback-differs-from-written',
+                                                'what': 'after the history, reading does not return the most recently written values '
+                                                        '(or a write was accepted that cannot be read back%s)'
+                                                        % ('' if mism == '-' else ': write %s, which the specification rejects' % mism[:-2])})
             # rows ascending by id on disk
             ids = []
             for line in final.split(b'\n')[1:]:
@@ -380,13 +459,142 @@ def evaluate(ctx, hs, res):
                                             'what': 'ids on disk: %s' % ids})
 
 
+KILL_POINTS = ['step.before_truncate', 'step.after_truncate']
+
+
+def kill_at(impl, work, idx, path, idarg, kvs, point):
+    """robsd-step -W stopped at a sync point of steps_write (ROBSD_VERIF hook), then SIGTERM + SIGCONT: what C07's takedown
+    of the step's process group does to a step_write that happens to run.  Returns (reached, returncode)."""
+    fifo = os.path.join(work, 'kfifo%d' % idx)
+    os.mkfifo(fifo)
+    fd = os.open(fifo, os.O_RDWR | os.O_NONBLOCK)
+    env = dict(os.environ, ROBSD_VERIF_SYNC=point, ROBSD_VERIF_FIFO=fifo)
+    p = subprocess.Popen([os.path.join(impl, 'robsd-step'), '-W', '-f', path, '-i', idarg, '--'] + kvs, env=env,
+                         stdin=subprocess.DEVNULL, stdout=subprocess.PIPE, stderr=subprocess.PIPE)
+    reached = False
+    deadline = time.time() + 10
+    try:
+        while time.time() < deadline and p.poll() is None:
+            try:
+                st = open('/proc/%d/stat' % p.pid).read()
+                if st[st.rindex(')') + 2] in 'Tt':
+                    reached = True
+                    break
+            except (OSError, ValueError):
+                pass
+            time.sleep(0.0005)
+        if reached:
+            os.kill(p.pid, signal.SIGTERM)
+            os.kill(p.pid, signal.SIGCONT)
+        try:
+            p.wait(timeout=10)
+        except subprocess.TimeoutExpired:
+            p.kill()
+            p.wait()
+    finally:
+        os.close(fd)
+        os.unlink(fifo)
+    return reached, p.returncode
+
+
+def kill_lane(ctx, impl, drv, res, rounds):
+    """The most likely trigger of the state the known finding describes needs no file-system fault: C07's takedown sends SIGTERM
+    to the step's process group, and a `robsd-step -W` (util.sh step_write) of that group that is between fopen("we") and fclose
+    dies there; the kernel drops its flock.  Stopped at step.after_truncate and terminated, the command leaves the k = 0 state
+    (an empty file: nothing left stdio yet); terminated at step.before_truncate it leaves the file untouched.
+    OUTSIDE C01's quantifier - counted, not judged: C01 ranges over write INVOCATIONS that run to their exit status ("a write
+    command that rejects its arguments exits non-zero ...", "exits zero only if ...") and over "a write failure injected at the
+    final flush"; a killed command reports no exit status, so no clause of C01 speaks about it (C02 likewise quantifies over
+    schedules, not crashes).  What IS compared: the bytes left are those the fault model predicts for k = 0 (model: writek 0),
+    i.e. the kill reaches exactly the state of the known finding; and what the next writer then does is recorded."""
+    work = ctx.mkscratch('c01k')
+    rng = ctx.rng
+    n_reached = 0
+    for r in range(rounds):
+        path = os.path.join(work, 'k%d.csv' % r)
+        open(path, 'wb').write(b'')
+        nrows = rng.choice([1, 2, 3, 5, 90])
+        for i in range(1, nrows + 1):
+            sh_write(impl, path, str(i).encode(), [b'name=step%d' % i, b'exit=0', b'duration=%d' % i, b'user=root', b'time=17000000%02d' % (i % 100)])
+        before = open(path, 'rb').read()
+        point = rng.choice(KILL_POINTS + ['step.after_truncate'])
+        victim_id = str(rng.choice([1, nrows, nrows + 1])).encode()
+        kvs = [b'name=victim', b'exit=1', b'duration=7', b'user=root', b'time=1700000099']
+        reached, rc = kill_at(impl, work, r, path, victim_id.decode(), [k.decode() for k in kvs], point)
+        after = open(path, 'rb').read()
+        res.evaluations += 1
+        if not reached:
+            res.tie_errors.append('kill lane: robsd-step -W never stopped at %s (ROBSD_VERIF hook inactive?)' % point)
+            continue
+        n_reached += 1
+        a = common.run_driver(drv, [' '.join(['writek', '0', hexs(before), victim_id.hex(), str(len(kvs))] + [k.hex() for k in kvs])])[0]
+        model_after = common.unhex(a.split(' ')[1]) if point == 'step.after_truncate' else before
+        case = {'kill': True, 'rows': nrows, 'point': point, 'id': victim_id.decode()}
+        res.count('outside: writer killed by SIGTERM at %s (no exit status of a write command to judge; state %s)'
+                  % (point, 'k=0: empty file' if point == 'step.after_truncate' else 'file untouched'))
+        if rc != -signal.SIGTERM:
+            res.disagreements.append({'case': case, 'model': 'terminated by SIGTERM', 'impl': 'return code %s' % rc})
+        if after != model_after:
+            res.disagreements.append({'case': case, 'model': model_after.hex()[:200], 'impl': after.hex()[:200],
+                                      'why': 'bytes left by a writer killed at %s differ from the k=0 state of the fault model' % point})
+        # what the next writer of the invocation experiences: it silently starts from the damaged file
+        rc2, _ = sh_write(impl, path, b'777', [b'name=next', b'exit=0', b'duration=1', b'user=root', b'time=1700000100'])
+        ids = common.run_driver(drv, ['ids ' + hexs(open(path, 'rb').read())])[0]
+        if point == 'step.after_truncate':
+            res.count('after the kill the next write exited %d and the file holds ids %s of formerly %d rows' % (rc2, ids[3:] if ids.startswith('ok') else ids, nrows)
+                      if nrows <= 3 else 'after the kill of a large file the next write exited %d' % rc2)
+        os.unlink(path)
+    if rounds and not n_reached:
+        res.tie_errors.append('kill lane: no round reached a sync point')
+
+
 def qs_for_write(h, i, before, fault):
     idh, kvh = h['writes'][i]
     return ' '.join(['write', '1' if fault else '0', hexs(before), idh or '-', str(len(kvh))] + [k or '-' for k in kvh])
 
 
 def load_corpus():
-    return [json.load(open(p)) for p in sorted(glob.glob(os.path.join(common.VERIF, 'corpus', 'C01', '*.json')))]
+    """corpus/C01/*.json: one history per `fixed`/`known` entry of known_findings.json for C01 (and the stored seeds); they run
+    FIRST.  A missing or empty directory is an error (it used to be an empty list, silently)."""
+    d = os.path.join(common.VERIF, 'corpus', 'C01')
+    paths = sorted(glob.glob(os.path.join(d, '*.json')))
+    if not paths:
+        raise common.BuildFailure('corpus/C01 is missing or empty (%s): the replays of the repaired defects and of the known finding must run first' % d)
+    out = []
+    for p in paths:
+        h = json.load(open(p))
+        h['corpus'] = os.path.basename(p)
+        for key in ('start', 'writes', 'fault_at'):
+            if key not in h:
+                raise common.BuildFailure('%s: corpus case without %r' % (p, key))
+        out.append(h)
+    # every entry of known_findings.json for C01 names its replay class; each class must be present
+    need = ['d1', 'd2', 'd3', 'd4', 'd22', 'known_k0', 'known_row_boundary', 'known_mid_row']
+    have = ' '.join(os.path.basename(p) for p in paths)
+    missing = [n for n in need if n not in have]
+    if missing:
+        raise common.BuildFailure('corpus/C01 lacks a case for: %s' % ', '.join(missing))
+    return out
+
+
+def check_expectations(hs, obs, res):
+    """A corpus case may pin what the repaired / known behaviour looks like (`expect`: exit status per write, and whether the
+    refusal damage of the known finding must be OBSERVED): a corpus case that no longer exercises its input class - the
+    refusal lands elsewhere, the write is no longer reached - is a broken tie, not a pass."""
+    for h, (steps, final, reads, byname) in zip(hs, obs):
+        exp = h.get('expect')
+        if not exp:
+            continue
+        if 'rc' in exp and [st['rc'] for st in steps] != exp['rc']:
+            res.count('corpus case with unexpected exit statuses')
+            res.oracle_failures.append({'case': {'history': h}, 'signature': 'repaired-defect-is-back',
+                                        'what': 'corpus case %s: exit statuses %s, the repaired behaviour is %s' % (h.get('corpus'), [st['rc'] for st in steps], exp['rc'])})
+        if 'refusal_class' in exp:
+            st = steps[h['fault_at']]
+            got = refusal_class(st)
+            if got != exp['refusal_class']:
+                res.tie_errors.append('corpus case %s no longer exercises its input class: refusal class %r, expected %r (k=%s, new content %s bytes, rc=%s)'
+                                      % (h.get('corpus'), got, exp['refusal_class'], st['k'], len(st['new']) if st['new'] is not None else None, st['rc']))
 
 
 def valid(h):
@@ -398,17 +606,22 @@ def valid(h):
 
 def run(ctx, n=None):
     res = common.Result()
-    res.rule = ('histories of 1-12 robsd-step -W invocations (new/replaced ids, partial updates, repeated keys, unknown keys, missing =, step= naming the same and '
+    res.rule = ('the corpus first (one history per repaired defect D1-D4, D22, per class of the known finding, per stored seed); histories of 1-12 robsd-step -W invocations (new/replaced ids, partial updates, repeated keys, unknown keys, missing =, step= naming the same and '
                 'another id, hostile string values with , newline $ and empty, integers at the 64-bit limits and with strtoll syntax variants, id arguments at and '
                 'beyond +-INT_MAX) on empty and hand-made starting files; in ~12% of histories (and in the ~6% with a file of several stdio blocks) one write runs '
                 'on a file system that accepts only the first k bytes (k = 0, inside the header, inside a row, on a row boundary, at and around the 4096/8192 block '
                 'boundaries, all but the last byte, all), exit status and file bytes compared with the model; followed by reads of every field at 7 positions and '
-                'by up to 4 names; non-trivial = started from the empty file with at least two accepted writes; distinct by content hash')
+                'by up to 4 names, judged by the two-sided dictionary oracle; a lane in which the writer is terminated by SIGTERM at step.before_truncate / step.after_truncate (outside the quantifier: counted, the bytes left compared with the k=0 state of the fault model); non-trivial = started from the empty file with at least two accepted writes; distinct by content hash')
     n = n or ctx.budget(250, 8000)
     hs = [h for h in load_corpus() + [gen_history(ctx.rng) for _ in range(n)] if valid(h)]
     res.samples = hs[:2]
     for i in range(0, len(hs), 1000):
         evaluate(ctx, hs[i:i + 1000], res)
+    if not any(k.startswith('history judged by the two-sided oracle') for k in res.distribution):
+        res.tie_errors.append('no history was judged by the two-sided oracle')
+    if not any(k.startswith('refusal ') for k in res.distribution):
+        res.tie_errors.append('no write ran under a refusing file system')
+    kill_lane(ctx, ctx.build_impl(), ctx.build_driver('st', withz=True), res, ctx.budget(12, 200) if n >= 250 else 4)
     res.traces_validated = len(hs)
     res.extra['histories'] = len(hs)
     return res
@@ -420,8 +633,12 @@ def extended_search(ctx, res, proof):
 
 def replay(ctx, rep):
     case = rep.get('case') or (rep.get('first_disagreements') or [{}])[0].get('case')
-    h = case['history']
     res = common.Result()
+    if case.get('kill'):
+        kill_lane(ctx, ctx.build_impl(), ctx.build_driver('st', withz=True), res, 30)
+        print('disagreements:', res.disagreements[:3], 'tie errors:', res.tie_errors[:3])
+        return 1 if (res.disagreements or res.tie_errors) else 0
+    h = case['history']
     evaluate(ctx, [h], res)
     print('history:', json.dumps(h))
     print('disagreements:', res.disagreements)
@@ -433,8 +650,8 @@ def shrink(ctx, failure):
     """smallest history (by writes) on which the same oracle signature still fails"""
     case = failure['case']
     h = case.get('history')
-    if not h:
-        return None
+    if not h or h.get('expect') or failure.get('signature') == 'repaired-defect-is-back':
+        return None        # a corpus case is already minimal, and its expectations refer to its own writes
 
     def still(ws):
         hh = dict(h, writes=ws, fault_at=-1 if h['fault_at'] < 0 else min(h['fault_at'], len(ws) - 1))
